@@ -319,3 +319,9 @@ func (s *Stream) N(tier string) int {
 	}
 	return s.Quick
 }
+
+// DescBytes returns the JSON form of the recorded case description (used as distinctness key).
+func (t *T) DescBytes() []byte {
+	b, _ := json.Marshal(Printable(t.desc))
+	return b
+}
